@@ -56,6 +56,11 @@ def gen_case(rng, tier, adversarial=None):
     total = rng.randint(1, 12) if tier == "quick" else rng.randint(1, 40)
     if adversarial in ("dup16", "many"):
         total = rng.choice([16, 16, 17, 32, 8])
+    if adversarial == "sameday":
+        # more than nine invocations of one architecture on one day: the directory names (.10 before .2
+        # in strcmp order) no longer sort like the start times
+        total = rng.choice([11, 12, 13])
+        arches = arches[:1]
     pool = rng.sample(SUITES, rng.randint(2, len(SUITES)))
     base = 1666000000
     invs = []
@@ -64,7 +69,7 @@ def gen_case(rng, tier, adversarial=None):
     t = base
     for k in range(total):
         arch = rng.choice(arches)
-        if rng.random() < 0.6:
+        if rng.random() < 0.6 and adversarial != "sameday":
             day += 1
         date0 = "2022-10-%02d" % (1 + day % 28) if day < 28 else "2022-11-%02d" % (1 + (day - 28) % 28)
         n = seq.get((arch, date0), 0) + 1
@@ -91,6 +96,12 @@ def gen_case(rng, tier, adversarial=None):
             recs.insert(rng.randint(0, len(recs)), d)
         invs.append(dict(arch=arch, date=date, time=t, duration=rng.choice([30, 600, 3600, 7300, 90000]), recs=recs,
                          cvs=rng.random() < 0.5, patches=rng.choice([0, 0, 1, 3])))
+    if adversarial == "clock":
+        # start times that do not follow the directory names at all (a restored directory, a clock set back)
+        ts = [i["time"] for i in invs]
+        rng.shuffle(ts)
+        for i, tt in zip(invs, ts):
+            i["time"] = tt
     return dict(arches=arches, invs=invs)
 
 
@@ -197,7 +208,7 @@ def run(ctx):
     reqs, wants, infos = [], [], []
     n = ctx.n(40, 1500)
     for t in range(n):
-        adv = [None, "equal-times", None, "dup16", "sparse", None, "many", None][t % 8]
+        adv = [None, "equal-times", "sameday", "dup16", "sparse", "clock", "many", None][t % 8]
         case = gen_case(rng, ctx.tier, adv)
         root = os.path.join(ctx.scratch, "rh")
         order = materialise(case, root)
